@@ -848,6 +848,89 @@ func gatedReconnectRacingSend() []int64 {
 	return []int64{0, int64(n)}
 }
 
+// peekGate is a request queue whose Peek can be held after it has read the head: the caller continues with a head that
+// may no longer be the head.
+type peekGate struct {
+	ocppj.RequestQueue
+	armed   int32
+	entered chan struct{}
+	release chan struct{}
+}
+
+func (g *peekGate) Peek() interface{} {
+	el := g.RequestQueue.Peek()
+	if atomic.CompareAndSwapInt32(&g.armed, 1, 0) {
+		close(g.entered)
+		<-g.release
+	}
+	return el
+}
+
+// scenario 22 (C01, C07; finding F9): the reply to a request and its timeout are handled at the same time.  The request
+// is concluded once, the next request is neither lost nor left without a conclusion, and the dispatcher goes on.
+func gatedReplyRacingTimeout() []int64 {
+	installIDGen()
+	fake := fakews.NewClient()
+	g := &peekGate{RequestQueue: ocppj.NewFIFOClientQueue(0), entered: make(chan struct{}), release: make(chan struct{})}
+	disp := ocppj.NewDefaultClientDispatcher(g)
+	disp.SetTimeout(time.Hour)
+	cl := ocppj.NewClient("cp1", fake, disp, nil, core16.Profile)
+	var mu sync.Mutex
+	concluded := map[string]int{}
+	cl.SetResponseHandler(func(r ocpp.Response, id string) { mu.Lock(); concluded[id]++; mu.Unlock() })
+	cl.SetErrorHandler(func(e *ocpp.Error, d interface{}) {})
+	cl.SetRequestHandler(func(r ocpp.Request, id, action string) {})
+	cl.SetOnRequestCanceled(func(id string, r ocpp.Request, e *ocpp.Error) { mu.Lock(); concluded[id]++; mu.Unlock() })
+	if err := cl.Start("ws://fake"); err != nil {
+		return []int64{-2}
+	}
+	for _, id := range []string{"91", "92", "93"} {
+		setNextID(id)
+		if err := cl.SendRequest(core16.NewDataTransferRequest("v" + id)); err != nil {
+			return []int64{-3}
+		}
+	}
+	if !waitFor(3*time.Second, clientWrote(fake, 91)) {
+		return []int64{-8}
+	}
+	time.Sleep(10 * time.Millisecond)
+	// the reply to 91 arrives: the reader thread is held right after it has looked at the queue head
+	atomic.StoreInt32(&g.armed, 1)
+	replied := make(chan struct{})
+	go func() { _ = fake.Inject([]byte(`[3,"91",{"status":"Accepted"}]`)); close(replied) }()
+	select {
+	case <-g.entered:
+	case <-time.After(2 * time.Second):
+		return []int64{-4}
+	}
+	// ... while the request's timeout fires and is handled by the pump
+	disp.VerifFireTimer()
+	time.Sleep(60 * time.Millisecond)
+	close(g.release)
+	select {
+	case <-replied:
+	case <-time.After(3 * time.Second):
+		return []int64{-8}
+	}
+	// 92 must be written, answered and concluded; then 93
+	if !waitFor(3*time.Second, clientWrote(fake, 92)) {
+		return []int64{0, 92}
+	}
+	within(2*time.Second, func() { _ = fake.Inject([]byte(`[3,"92",{"status":"Accepted"}]`)) })
+	if !waitFor(3*time.Second, clientWrote(fake, 93)) {
+		return []int64{0, 93}
+	}
+	within(2*time.Second, func() { _ = fake.Inject([]byte(`[3,"93",{"status":"Accepted"}]`)) })
+	waitFor(2*time.Second, func() bool { mu.Lock(); defer mu.Unlock(); return concluded["93"] > 0 })
+	within(2*time.Second, cl.Stop)
+	mu.Lock()
+	defer mu.Unlock()
+	if concluded["92"] == 1 && concluded["93"] == 1 && concluded["91"] == 1 {
+		return []int64{1, int64(concluded["91"])}
+	}
+	return []int64{0, int64(concluded["91"]), int64(concluded["92"]), int64(concluded["93"])}
+}
+
 func gatedEval(in []int64) []int64 {
 	switch in[0] {
 	case 7:
@@ -874,6 +957,8 @@ func gatedEval(in []int64) []int64 {
 		return gatedSimultaneousTimeouts()
 	case 21:
 		return gatedReconnectRacingSend()
+	case 22:
+		return gatedReplyRacingTimeout()
 	}
 	return []int64{-1}
 }
